@@ -49,15 +49,45 @@ func RebuildVault(reg *registry.Register, writes []*WriteRec) (storage.Vault, []
 			err = v.Create(ctx, CopyPlan(w.Plan))
 			created = append(created, CopyPlan(w.Plan))
 		case w.Obj == workflow.OTPlan:
-			err = v.UpdatePlan(ctx, &workflow.Plan{ID: w.ID, State: &st, Reason: w.Reason})
+			o := &workflow.Plan{ID: w.ID}
+			if f, ok := w.Full.(*workflow.Plan); ok {
+				c := *f
+				c.Meta = append([]byte(nil), f.Meta...)
+				o = &c
+			}
+			o.State, o.Reason = &st, w.Reason
+			err = v.UpdatePlan(ctx, o)
 		case w.Obj == workflow.OTBlock:
-			err = v.UpdateBlock(ctx, &workflow.Block{ID: w.ID, State: &st})
+			o := &workflow.Block{ID: w.ID}
+			if f, ok := w.Full.(*workflow.Block); ok {
+				c := *f
+				o = &c
+			}
+			o.State = &st
+			err = v.UpdateBlock(ctx, o)
 		case w.Obj == workflow.OTCheck:
-			err = v.UpdateChecks(ctx, &workflow.Checks{ID: w.ID, State: &st})
+			o := &workflow.Checks{ID: w.ID}
+			if f, ok := w.Full.(*workflow.Checks); ok {
+				c := *f
+				o = &c
+			}
+			o.State = &st
+			err = v.UpdateChecks(ctx, o)
 		case w.Obj == workflow.OTSequence:
-			err = v.UpdateSequence(ctx, &workflow.Sequence{ID: w.ID, State: &st})
+			o := &workflow.Sequence{ID: w.ID}
+			if f, ok := w.Full.(*workflow.Sequence); ok {
+				c := *f
+				o = &c
+			}
+			o.State = &st
+			err = v.UpdateSequence(ctx, o)
 		case w.Obj == workflow.OTAction:
-			err = v.UpdateAction(ctx, &workflow.Action{ID: w.ID, State: &st, Attempts: CopyAttempts(w.Attempts)})
+			o := &workflow.Action{ID: w.ID}
+			if f, ok := w.Full.(*workflow.Action); ok {
+				o = copyAction(f)
+			}
+			o.State, o.Attempts = &st, CopyAttempts(w.Attempts)
+			err = v.UpdateAction(ctx, o)
 		}
 		if err != nil {
 			v.Close(ctx)
@@ -334,6 +364,13 @@ func RunCrashCase(c *CrashCase, which string, res *vprop.Result) {
 		if nt {
 			res.NonTrivial = true
 			vprop.Count("nontrivial_crash_points", 1)
+		}
+		// evidence that the restarted process really could read and resume its plans (a floor in the conf turns a run
+		// in which no recovered plan ever reached a terminal state into INCONCLUSIVE instead of vacuously green)
+		for pi, pr := range rr.Plans {
+			if d.status(fmt.Sprintf("p%d", pi)) == workflow.Running && pr.Final != nil && finished(status(pr.Final.State)) {
+				vprop.Count("recovered_running_plans_terminal", 1)
+			}
 		}
 		return len(res.Violations) == 0 && !res.Skip
 	}
